@@ -258,6 +258,46 @@ def d1_offsets(chk, prog):
         untouched = same(df_in.cols["start"].v[0], MS) and same(df_in.cols["end"].v[0], ME)
         chk.decide(untouched, "coordinate-offset", f"writer {fmt}: the caller's frame is not modified", f"writer-input:{fmt}:{fi.qn}", fi.loc(),
                    f"writer shifts the coordinates of the frame it was given (start now {df_in.cols['start'].v[0]!r})")
+        # the same writer on three rows whose index labels are not 0..n-1 (a filtered or re-ordered table): every output line describes one row
+        W.reset()
+        chroms3 = ["chrA", "chrB", "chrC"]
+        S3 = [Term.sym(f"mem_start{i}", 0, INF, True) for i in range(3)]
+        E3 = [Term.sym(f"mem_end{i}", 1, INF, True) for i in range(3)]
+        rows3 = []
+        for i in range(3):
+            r3 = {"chromosome": chroms3[i], "start": S3[i], "end": E3[i], "gene": f"G{i}", "log2": Term.sym(f"m_log2_{i}"), "depth": Term.sym(f"m_depth{i}", 0, INF),
+                  "gc": Term.sym(f"m_gc{i}"), "probes": Term.sym(f"m_probes{i}", 0, INF, True), "weight": Term.sym(f"m_w{i}")}
+            if fmt == "bed3":
+                r3 = {k: r3[k] for k in ("chromosome", "start", "end")}
+            rows3.append(r3)
+        df3 = make_ga("GenomicArray", rows3, {}, exact=True, labels=[5, 2, 9], index="any").data
+        it3 = Interp(prog, Model())
+        try:
+            out3 = it3.run(fi.qn, [df3], kw)
+        except Undecided as e:
+            raise AnalysisError(f"C08-D1 writer {fmt} on a three-row table ({fi.qn}): cannot decide: {e}")
+        except Raised as e:
+            chk.violate("coordinate-offset", f"writer-rows:{fmt}:{fi.qn}", fi.loc(), f"writer raises on a three-row table whose index labels are 5, 2, 9: {e}")
+            continue
+        got3 = None
+        if isinstance(out3, DF) and out3.n == 3:
+            cc = next((c for c in ("chromosome", "chrom", "CHROM", "#CHROM") if c in out3.cols), None)
+            if cc and sc in out3.cols and ec in out3.cols:
+                got3 = [(out3.cols[cc].v[i], out3.cols[sc].v[i], out3.cols[ec].v[i]) for i in range(3)]
+        elif isinstance(out3, Vec) and len(out3.v) == 3 and all(isinstance(x, FStr) for x in out3.v):
+            got3 = [(x.parts[0].split(":")[0] if isinstance(x.parts[0], str) else (x.parts[0].v if isinstance(x.parts[0], FVal) else None), x.field(":"), x.field("-")) for x in out3.v]
+        if got3 is None:
+            raise AnalysisError(f"C08-D1 writer {fmt}: cannot locate the rows of the three-row output: {out3!r}")
+        if fmt == "tab" and isinstance(out3, DF):
+            # the native table format carries every column: the values handed to the CSV formatter (6 significant digits) are the table's own
+            kept = {c: (c in out3.cols and len(out3.cols[c].v) == 3 and all(same(a, b) for a, b in zip(out3.cols[c].v, df3.cols[c].v))) for c in df3.cols if not c.startswith("__")}
+            chk.decide(all(kept.values()), "coordinate-offset", "writer tab: every column of the table reaches the file formatter unchanged (rounding to 6 significant digits is the formatter's)",
+                       f"writer-columns:tab:{fi.qn}", fi.loc(), f"the tab writer alters or drops columns before formatting: {sorted(c for c, ok_ in kept.items() if not ok_)} "
+                       "(e.g. rounding to a fixed number of decimals loses small p-values and weights that 6 significant digits keep)")
+        want_c = [1, 2, 3] if fmt == "seg" else chroms3          # (SEG numbers the chromosomes in order of appearance)
+        ok3 = all(c == want_c[i] and s_ is not None and e_ is not None and same(s_, t_add(S3[i], Term.const(BASE[fmt]))) and same(e_, E3[i]) for i, (c, s_, e_) in enumerate(got3))
+        chk.decide(ok3, "coordinate-offset", f"writer {fmt} on three rows labelled 5, 2, 9: each line holds one row's chromosome, start + {BASE[fmt]} and end", f"writer-rows:{fmt}:{fi.qn}", fi.loc(),
+                   f"on a table whose index labels are not 0..n-1 the writer pairs fields of different rows (or loses them): lines {[(c, repr(a), repr(b)) for c, a, b in got3]}")
         if fmt != "bed3":
             # the same writer on a table that also carries a strand column (read from a 6-column BED or an interval list)
             W.reset()
